@@ -115,9 +115,18 @@ class SourceRef:
         return (self.lineno, self.offset, self.file, self.length)
 
     @staticmethod
+    def reset_refs():
+        """Forget the source references indexed by earlier compilations."""
+        global next_index
+        REFS.clear()
+        index_map.clear()
+        next_index = 0
+
+    @staticmethod
     def get_sources():
-        """Get all sources."""
-        return USED_SOURCES
+        """Get the sources that the indexed source references point into."""
+        used = {ref["file"] for ref in REFS}
+        return {name: src for (name, src) in USED_SOURCES.items() if name in used}
 
     @staticmethod
     def get_refs():
